@@ -125,6 +125,9 @@ def run_shard(ctx, shard):
     circles = ctx.extra['circles']
     for i in range(shard['n']):
         kind, rows = gen.diagram(rng, circles, allow_quotes=True, allow_braces=True)
+        if rng.random() < 0.1:
+            # nothing but quoted text (no ordinary cell at all)
+            rows = rng.choice([['"hello world"'], ['"-->|<-- not a diagram"', '  "second line"'], ['', '   "q"'], ['"a" "b"   "c"']])
         s = gen.text_of(rows)
         if rng.random() < 0.3:
             s += '# Legend:\na = {fill:red}\nbig = {stroke: blue}\n'
